@@ -61,7 +61,10 @@ def spec_call(ex, ev: Eval, node: ast.Call, fname: str):
         q = z3.ForAll if fname == "forall" else z3.Exists
         return V(BOOL, q(bvs, body, patterns=pats) if pats else q(bvs, body))
     if fname == "implies":
-        return V(BOOL, z3.Implies(ev.boolean(a[0]), ev.boolean(a[1])))
+        ante = ev.boolean(a[0])
+        if z3.is_false(z3.simplify(ante)):
+            return V(BOOL, z3.BoolVal(True))  # lazily: the consequent may mention names that are unbound here
+        return V(BOOL, z3.Implies(ante, ev.boolean(a[1])))
     if fname == "iff":
         return V(BOOL, ev.boolean(a[0]) == ev.boolean(a[1]))
     if fname == "ite":
@@ -366,6 +369,13 @@ def builtin_call(ex, ev: Eval, node, fname):
         if tn in table:
             return V(BOOL, z3.BoolVal(bool(table[tn])))
         raise Unsupported(f"isinstance(_, {tn})")
+    if fname == "deque" and len(a) <= 1 and not node.keywords:
+        if not a:
+            raise Unsupported("deque() without a declared element type")
+        v = ev.expr(a[0])
+        if isinstance(v.t, TList):
+            return v  # a deque is modelled as a list (append at the right, popleft at the left)
+        raise Unsupported(f"deque({v.t})")
     if fname == "set" and len(a) == 1:
         v = ev.expr(a[0])
         if isinstance(v.t, TSet):
@@ -519,6 +529,16 @@ def method_call(ex, ev: Eval, node, recv_node, meth):
             r = do_sorted(ex, ev, node, xs_value=recv)
             _store_back(ex, ev, recv_node, r)
             return V(NONE, z3.BoolVal(True))
+        if meth == "popleft" and not a:
+            if ev.guard:
+                raise Unsupported("effect under short-circuit")
+            ev.ob("bounds", ln > 0, node)
+            new = fresh(TMap(INT, recv.t.elem), "shifted")
+            j = z3.Int("j!popleft")
+            ev.st.pc.append(z3.ForAll([j], z3.Implies(z3.And(0 <= j, j < ln - 1), z3.Select(new.z, j) == z3.Select(arr, j + 1)),
+                                      patterns=[z3.Select(new.z, j)]))
+            _store_back(ex, ev, recv_node, mk_list(recv.t, ln - 1, new.z))
+            return V(recv.t.elem, z3.Select(arr, 0))
         if meth == "copy" and not a:
             return recv
         if meth == "reverse" and not a:
